@@ -13,7 +13,9 @@
 (*              FALSE: real multiprocessing - Feed steps are silent        *)
 (*   fin        what the consumer saw: delivered ids in order, how often   *)
 (*              row_func had been applied to each delivered row, whether   *)
-(*              the run terminated                                         *)
+(*              the run terminated normally; failed = it raised the        *)
+(*              upstream iterator's own exception; clean = no actor was    *)
+(*              left behind                                                *)
 (* R, N, Sel are constants of Parallelize, so a batch holds traces of one  *)
 (* configuration.                                                          *)
 (***************************************************************************)
@@ -35,6 +37,7 @@ E == Ev[l]
 Is(name) == l <= Len(Ev) /\ E[1] = name
 Step == \/ Is("CPeekYield") /\ CPeekYield /\ nextIn = E[2]
         \/ Is("CPeekEnd") /\ CPeekEnd
+        \/ Is("CPeekFail") /\ CPeekFail
         \/ Is("CStart") /\ CStart
         \/ Is("PPut") /\ PPut /\ nextIn = E[2]
         \/ Is("PMarker") /\ PMarker
@@ -72,11 +75,18 @@ RecOnce == /\ Rec.terminated
 \* progress register per trace: the furthest point reached (monotone in l), with the model-side verdicts there
 Progress == LET old == TLCGetOrDefault(t, <<0>>) IN
             IF l - 1 >= old[1]
-            THEN TLCSet(t, <<l - 1, Len(Ev), inv, cphase = "done", cphase = "done" => (ExactlyOnce /\ Quiescent), delivered = Rec.delivered>>)
+            THEN TLCSet(t, <<l - 1, Len(Ev), inv, cphase \in {"done", "failed"},
+                             (cphase = "done" => (ExactlyOnce /\ Quiescent)) /\ UpstreamFailureSurfaces, delivered = Rec.delivered>>)
             ELSE TRUE
 Report == \A i \in 1..Len(Traces) : PrintT(<<"VERDICT", i, TLCGet(i),
              LET rec == Traces[i].fin IN
-             /\ rec.terminated /\ Len(rec.delivered) = R
-             /\ \A r \in 1..R : Cardinality({k \in 1..Len(rec.delivered) : rec.delivered[k] = r}) = 1
-             /\ \A k \in 1..Len(rec.delivered) : rec.applied[k] = (IF rec.delivered[k] \in Sel \ Fail THEN 1 ELSE 0)>>)
+             IF FailAt = 0
+             THEN /\ rec.terminated /\ Len(rec.delivered) = R
+                  /\ \A r \in 1..R : Cardinality({k \in 1..Len(rec.delivered) : rec.delivered[k] = r}) = 1
+                  /\ \A k \in 1..Len(rec.delivered) : rec.applied[k] = (IF rec.delivered[k] \in Sel \ Fail THEN 1 ELSE 0)
+             \* a failing upstream (C04 inside parallelize): the run raises THAT failure, nobody is left behind, and what was
+             \* delivered before are rows that precede the failure, at most once each
+             ELSE /\ ~rec.terminated /\ rec.failed /\ rec.clean
+                  /\ \A k \in 1..Len(rec.delivered) : rec.delivered[k] < FailAt
+                  /\ \A r \in 1..R : Cardinality({k \in 1..Len(rec.delivered) : rec.delivered[k] = r}) <= 1>>)
 =============================================================================
